@@ -19,7 +19,28 @@ ASSUMPTIONS = ["objective values are not NaN", "wrappers are used through evalua
 TRUSTED_BASE = ["scripted objective (returns prepared doubles) stands for an arbitrary deterministic objective"]
 
 
-def build(kinds, maximize, values, P):
+def _user_problem(P, maximize):
+    """a user-defined innermost problem with an ordering of its own (closeness to a target value)"""
+
+    class NearTarget(P.Problem):
+        def evaluate(self, genome, *args, **kwargs):
+            return float(np.sum(genome))
+
+        def worse_than(self, first_fitness, second_fitness):
+            return abs(first_fitness - 1.5) > abs(second_fitness - 1.5)
+
+        @property
+        def bounds(self):
+            return np.array([[-3.0, 4.0]])
+
+        @property
+        def maximize(self):
+            return maximize
+
+    return NearTarget()
+
+
+def build(kinds, maximize, values, P, base=None):
     calls = []
     it = iter(values)
 
@@ -29,7 +50,7 @@ def build(kinds, maximize, values, P):
         return v
 
     bounds = np.array([[-1.0, 1.0], [-2.0, 3.0]])
-    base = P.FunctionProblem(obj, bounds=bounds, maximize=maximize)
+    base = base if base is not None else P.FunctionProblem(obj, bounds=bounds, maximize=maximize)
     layers = []
     prob = base
     for k in reversed(kinds):  # kinds are outermost first
@@ -168,9 +189,19 @@ def run_cases(ctx, rng, ncases, maxdepth, sl, cases=None):
         # delegation (transparency of direction / bounds / comparison / unwrap)
         if top.maximize != maximize or not np.array_equal(top.bounds, base.bounds) or P.get_function_problem(top) is not base:
             viol = ("C16/delegation", "maximize/bounds/unwrap differ from the innermost problem")
-        for a, b in [(1.0, 2.0), (2.0, 1.0), (1.0, 1.0), (np.inf, 1.0), (-np.inf, 1.0)]:
+        nan = float("nan")
+        # (two NaNs are ordered by a coin flip in FunctionProblem: not compared)
+        for a, b in [(1.0, 2.0), (2.0, 1.0), (1.0, 1.0), (np.inf, 1.0), (-np.inf, 1.0), (nan, 1.0), (1.0, nan), (nan, np.inf), (-np.inf, nan), (np.inf, -np.inf)]:
             if top.worse_than(a, b) != base.worse_than(a, b):
                 viol = ("C16/delegation", f"worse_than({a},{b}) differs from innermost")
+        # the same stack over a user-defined innermost problem with an ordering of its own
+        ubase = _user_problem(P, maximize)
+        _, utop, _, _ = build(kinds, maximize, [], P, base=ubase)
+        if utop.maximize != ubase.maximize or not np.array_equal(utop.bounds, ubase.bounds):
+            viol = viol or ("C16/delegation", "maximize/bounds differ from a user-defined innermost problem")
+        for a, b in [(1.0, 2.0), (2.0, 1.0), (0.0, 3.0), (1.4, 1.7), (-5.0, 5.0)]:
+            if utop.worse_than(a, b) != ubase.worse_than(a, b):
+                viol = viol or ("C16/delegation", f"worse_than({a},{b}) differs from a user-defined innermost problem's own ordering")
         for i, v in enumerate(vals):
             before = len(calls)
             ret = top.evaluate(x)
